@@ -49,7 +49,7 @@ fn fits(ty: &str, v: i128) -> bool {
 }
 const MECHS: &[&str] = &[
     "assign", "init", "fb-input", "fb-inout", "func-return", "struct-field", "array-elem", "subrange-assign", "arith-literal", "for-control", "fb-output-read", "for-control-empty", "for-control-exit",
-    "subrange-default", "fb-positional-eno", "func-positional-eno", "access-partial", "access-array-struct",
+    "subrange-default", "fb-positional-eno", "func-positional-eno", "access-partial", "access-array-struct", "limit-clamp", "func-unbound-output", "char-init",
 ];
 
 fn lit(ty: &str, v: i64) -> String {
@@ -131,6 +131,27 @@ pub fn matrix_source(mech: &str, dst: &str, src: &str) -> String {
             }
             out.push_str(&format!(
                 "PROGRAM Main\nVAR\n  d : {dst} := {s};\n  n : INT;\nEND_VAR\nn := n + INT#1;\nIF n = INT#2 THEN\n{body}END_IF;\nEND_PROGRAM\nCONFIGURATION C\nPROGRAM P1 : Main;\nVAR_ACCESS\n{acc}END_VAR\nEND_CONFIGURATION\n"
+            ));
+        }
+        // LIMIT whose bounds have the (narrower) source type and whose input leaves the range: the result has the common type
+        "limit-clamp" => out.push_str(&format!(
+            "PROGRAM Main\nVAR\n  d : {dst};\n  x : {dst} := {};\n  lo : {src} := {};\n  hi : {src} := {s};\nEND_VAR\nd := LIMIT(lo, x, hi);\nx := {};\nEND_PROGRAM\n",
+            lit(dst, 100), lit(src, 1), lit(dst, 0)
+        )),
+        // a function output the caller does not bind, while the caller owns a variable of the same name and another type
+        "func-unbound-output" => out.push_str(&format!(
+            "FUNCTION F : DINT\nVAR_OUTPUT\n  rem : {src};\nEND_VAR\nrem := {s};\nF := 1;\nEND_FUNCTION\nPROGRAM Main\nVAR\n  rem : {dst};\n  n : DINT;\nEND_VAR\nn := F();\nEND_PROGRAM\n"
+        )),
+        // character variables initialised from either quote style (dst picks the combination)
+        "char-init" => {
+            let (ty, q) = match dst {
+                "SINT" => ("CHAR", '\''),
+                "INT" => ("CHAR", '"'),
+                "DINT" => ("WCHAR", '\''),
+                _ => ("WCHAR", '"'),
+            };
+            out.push_str(&format!(
+                "TYPE St : STRUCT f : {ty} := {q}B{q}; END_STRUCT END_TYPE\nPROGRAM Main\nVAR\n  c : {ty} := {q}B{q};\n  st : St;\n  n : DINT;\nEND_VAR\nn := n + 1;\nEND_PROGRAM\n"
             ));
         }
         // access paths that lead through an array element into a struct field (and into an array of arrays)
@@ -424,6 +445,13 @@ impl C03Check {
                     cells.push((mi, di, di));
                     continue;
                 }
+                if *mech == "char-init" {
+                    // four combinations of (CHAR | WCHAR) x (single | double quotes), carried by the first four rows
+                    if di < 4 {
+                        cells.push((mi, di, di));
+                    }
+                    continue;
+                }
                 if *mech == "access-partial" {
                     // bit-string rows only
                     if (10..14).contains(&di) {
@@ -463,7 +491,7 @@ impl C03Check {
         if stats.samples.is_empty() {
             stats.sample(json!({"matrix_cell": case, "source": source}));
         }
-        let class = if matches!(mech, "arith-literal" | "for-control" | "for-control-empty" | "for-control-exit" | "subrange-default") {
+        let class = if matches!(mech, "arith-literal" | "for-control" | "for-control-empty" | "for-control-exit" | "subrange-default" | "char-init") {
             "literal"
         } else if dst == src {
             "same-type"
